@@ -1022,6 +1022,7 @@ func analyse(cfgName string, env []string, patterns []string, wantPkgs map[strin
 		delete(vcValueUse, k)
 	}
 	vcAllFns = a.fns
+	ifaceTypesMemo = nil
 	callers := map[*ssa.Function][]*ssa.CallCommon{}
 	callerFn := map[*ssa.CallCommon]*ssa.Function{}
 	valueUse := map[*ssa.Function]bool{}
